@@ -13,7 +13,7 @@ from .. import driver, fsharness, gen, impl
 META = {'assumptions': ['JSON/YAML equivalence of a file and oslo.config find_file / option-location tracking are library '
                         'behaviour: exercised on the real code, the model takes parsed contents and a resolved choice']}
 
-NAMES = ['p0', 'p1', 'p2', 'p3']
+NAMES = ['p0', 'p1', 'p2', 'p3', 'default']      # 'default' is the stock default-rule name
 FILE_NAMES = ['b.yaml', 'a.yaml', 'B.yaml', '10.yaml', '9.yaml', 'a.json', 'z', '~x.yaml', 'ab.yaml', 'a-site.yaml', 'a.b.yaml',
               'a+x.yaml', 'a', 'a.yaml.bak', '50-base.yaml', '50-base-site.yaml', 'A.yaml', 'a b.yaml']
 
@@ -82,6 +82,18 @@ def _layers(ctx, rep):
                          'sorted) %r; layers %r' % (got, conf_dirs, want, layers),
                          {'conf_dirs': conf_dirs, 'layers': layers, 'regs': regs})
             pend.append((key, got, w.model_request(), conf_dirs, layers))
+            # names defined nowhere stay undefined: asking for one is decided by the default rule ('default', from whichever
+            # layer defines it last) or denied — also in a deployment without a main policy file
+            if not err:
+                dflt = want.get('default')
+                for roles in ([], [dflt[5:]] if dflt else ['nobody']):
+                    d_got = impl.outcome(lambda: e.enforce('never:defined', {}, {'roles': roles}))
+                    d_want = 'allow' if (dflt and roles == [dflt[5:]]) else 'deny'
+                    if d_got != d_want:
+                        rep.fail(key + '|undefined', 'an undefined name is %s for roles %r; the effective default rule is %r (layers %r, '
+                                 'configured directories %r)' % (d_got, roles, dflt, layers, conf_dirs),
+                                 {'conf_dirs': conf_dirs, 'layers': layers, 'regs': regs})
+                rep.stat('default_rule:' + ('defined' if dflt else 'undefined'))
             if len(regs) >= 2 and case % 3 == 0:
                 # the same configuration observed on an enforcer whose defaults were registered in two batches with a
                 # load in between (services register per-module defaults as modules are imported)
@@ -125,10 +137,18 @@ def _layers(ctx, rep):
 
 def _pick(ctx, rep):
     """Choice of the policy file: the complete table."""
-    hows = ['default', 'set_default_yaml', 'set_default_other', 'config_yaml', 'config_other', 'override_yaml', 'override_other']
+    hows = ['default', 'set_defaults_without_file', 'set_default_yaml', 'set_default_other', 'config_yaml', 'config_other',
+            'override_yaml', 'override_other']
     n = 0
     picks = []
-    saved_default = [o for o in opts._options if o.name == 'policy_file'][0].default
+    pf_opt = [o for o in opts._options if o.name == 'policy_file'][0]
+    saved_default = pf_opt.default
+    saved_location = getattr(pf_opt, '_set_location', None)     # opt_default until somebody calls set_defaults
+
+    def restore_default():
+        cfg.set_defaults(opts._options, policy_file=saved_default)
+        if saved_location is not None:
+            pf_opt._set_location = saved_location
     try:
         for how, exist_bits, fallback_arg, ctor in itertools.product(hows, range(8), (True, False, None), (None, 'ctor.yaml', 'policy.yaml', 'policy.json', 'other.yaml')):
             tmp = fsharness.scratch('opverif-pick-')
@@ -139,14 +159,16 @@ def _pick(ctx, rep):
                         with open(os.path.join(tmp, fn), 'w') as fh:
                             fh.write('{}')
                 value = 'other.yaml' if how.endswith('other') else 'policy.yaml'
-                cfg.set_defaults(opts._options, policy_file=saved_default)
+                restore_default()
                 conf = cfg.ConfigOpts()
                 args = ['--config-dir', tmp]
                 if how.startswith('config'):
                     with open(os.path.join(tmp, 'svc.conf'), 'w') as fh:
                         fh.write('[oslo_policy]\npolicy_file = %s\n' % value)
                 conf(args=args, project='opverifpick', default_config_files=[])
-                if how.startswith('set_default'):
+                if how == 'set_defaults_without_file':
+                    opts.set_defaults(conf)              # a service that only registers the options through set_defaults
+                elif how.startswith('set_default'):
                     opts.set_defaults(conf, policy_file=value)
                 else:
                     opts._register(conf)
@@ -159,7 +181,7 @@ def _pick(ctx, rep):
                     kw['policy_file'] = ctor
                 e = policy.Enforcer(conf, **kw)
                 got = e.policy_file
-                never_configured = how in ('default', 'set_default_yaml', 'set_default_other')
+                never_configured = how in ('default', 'set_defaults_without_file', 'set_default_yaml', 'set_default_other')
                 if ctor:
                     want = ctor
                 elif (value == 'policy.yaml' and fallback and never_configured and not exists['policy.yaml']
@@ -182,7 +204,7 @@ def _pick(ctx, rep):
             finally:
                 shutil.rmtree(tmp, ignore_errors=True)
     finally:
-        cfg.set_defaults(opts._options, policy_file=saved_default)
+        restore_default()
     for (rq, case, got), ans in zip(picks, driver.call([p[0] for p in picks])):
         if ans['file'] != got:
             rep.disagree('pick-file', case, ans['file'], got)
